@@ -24,6 +24,7 @@ mod c03;
 mod c05;
 mod c06;
 mod c06_view;
+mod c06codec;
 mod c01;
 mod c04;
 
